@@ -4,6 +4,7 @@ import (
 	"fmt"
 	"sort"
 	"strings"
+	"time"
 
 	"github.com/ohler55/slip"
 
@@ -285,24 +286,53 @@ func (c *call) valid() bool {
 	return true
 }
 
-// minimise drops every keyword whose removal keeps the same kind of failure,
-// so that the signature names only the keywords the failure needs.
+// minimise drops keywords as long as the same kind of failure remains, so
+// that the signature names only the keywords the failure needs. It is a
+// deterministic function of the call: the first reduction (fixed order) that
+// keeps the failure is taken, recursively. Verdicts of reduced calls are
+// memoised inside the process (a pure cache: it never changes a result).
 func minimise(c *call, kind string) *call {
-	cur := c.clone()
-	for changed := true; changed; {
-		changed = false
-		for _, red := range reductions(cur) {
-			d := cur.clone()
-			if !red(d) || !d.valid() {
-				continue
-			}
-			if judge(d).kind == kind {
-				cur = d
-				changed = true
-			}
+	key := c.spec() + "\x00" + kind
+	if m, ok := minMemo[key]; ok {
+		d, _ := parseSpec(m)
+		return d
+	}
+	result := c
+	for _, red := range reductions(c) {
+		d := c.clone()
+		if !red(d) || !d.valid() {
+			continue
+		}
+		if kindOf(d) == kind {
+			result = minimise(d, kind)
+			break
 		}
 	}
-	return cur
+	if memoCap <= len(minMemo) {
+		minMemo = map[string]string{}
+	}
+	minMemo[key] = result.spec()
+	return result
+}
+
+const memoCap = 400000
+
+var (
+	minMemo  = map[string]string{}
+	kindMemo = map[string]string{}
+)
+
+func kindOf(c *call) string {
+	sp := c.spec()
+	if k, ok := kindMemo[sp]; ok {
+		return k
+	}
+	k := judge(c).kind
+	if memoCap <= len(kindMemo) {
+		kindMemo = map[string]string{}
+	}
+	kindMemo[sp] = k
+	return k
 }
 
 func (c *call) seqClass(i int) string {
@@ -381,8 +411,8 @@ func (c *call) signature(kind string) string {
 		kw = append(kw, "key")
 	}
 	switch c.test {
-	case "eql":
-		kw = append(kw, "test=eql")
+	case "equal":
+		kw = append(kw, "test=equal")
 	case "lam", "eqv":
 		kw = append(kw, "test=lambda")
 	case "not":
@@ -426,6 +456,25 @@ func exec(spec string) (res engine.Result) {
 		} else {
 			res.Outcome = lisp.Show(v)
 		}
+		return
+	}
+	if strings.HasPrefix(spec, "bench|") { // development aid: ns per judge of one spec
+		c, _ := parseSpec(spec[6:])
+		t0 := time.Now()
+		for i := 0; i < 20000; i++ {
+			judge(c)
+		}
+		t1 := time.Now()
+		for i := 0; i < 20000; i++ {
+			_ = c.form()
+			expect(c, mutNone)
+		}
+		t2 := time.Now()
+		for i := 0; i < 20000; i++ {
+			_, _ = parseSpec(spec[6:])
+		}
+		t3 := time.Now()
+		res.Outcome = fmt.Sprintf("judge %v/op, form+expect %v/op, parse %v/op", t1.Sub(t0)/20000, t2.Sub(t1)/20000, t3.Sub(t2)/20000)
 		return
 	}
 	if strings.HasPrefix(spec, "histogram|") { // development aid: cases per function
